@@ -24,7 +24,11 @@ def make_grid(g):
             # station at the very same place (cosine of the distance is -1
             # or +1 up to rounding)
             j = r.randrange(i)
-            if r.random() < 0.75:
+            c2 = r.random()
+            if c2 < 0.2:
+                lat.append(-lat[j])         # mirrored at the equator
+                lon.append(lon[j])
+            elif c2 < 0.75:
                 lat.append(-lat[j])
                 lon.append(lon[j] + 180.0 if lon[j] < 0 else lon[j] - 180.0)
             else:
@@ -326,7 +330,11 @@ class C09(Machine):
                 np.cos(la)[:, None] * np.cos(la)[None, :] * \
                 np.sin((lo[:, None] - lo[None, :]) / 2) ** 2
             D64 = 2 * np.arcsin(np.sqrt(np.clip(h, 0.0, 1.0)))
-            undefined = ~np.isfinite(D)
+            # undefined, or further from the double-precision value than
+            # single-precision arccos can be (5e-4 rad at the poles of the
+            # cosine): not a distance the documented weight can be taken at
+            with np.errstate(invalid="ignore"):
+                undefined = ~np.isfinite(D) | (np.abs(D - D64) > 2e-3)
             if np.any(undefined):
                 R.probe("grid_distance_undefined")
             if np.any(np.abs(D64 - np.pi) < 1e-6) or np.any(
@@ -345,6 +353,15 @@ class C09(Machine):
             Wp = W64
             if representable:
                 skip = np.zeros((n, n), dtype=bool)
+            elif type(thr) is float:
+                # a threshold as the caller typed it (0.3): the stored
+                # single-precision similarities are compared with a Python
+                # float in single precision (NumPy >= 2), so 0.3 ties with
+                # the entry that float32(0.3) is -- decided exactly
+                skip = np.zeros((n, n), dtype=bool)
+                Wp = W.astype(np.float32).astype(np.float64)
+                thr64 = float(np.float32(thr64))
+                R.probe("typed_threshold_ties_decided_in_float32")
             else:
                 skip = np.abs(Wp - thr64) <= 4 * ulp32(thr64)
         expect = (Wp > thr64) & ~np.eye(n, dtype=bool)
